@@ -208,6 +208,17 @@ Fixpoint lin_state (h : history) (s : kv) (lin : list opid) : kv :=
 
 (* ---- the property -------------------------------------------------------- *)
 
+(* pt is a list of effect points for lin (pt[x] belongs to lin[x]; "pt = p" means
+   the gap just before event p of the history): after the invocation, not after
+   the Completed response, non-decreasing along lin *)
+Definition pts_ok (h : history) (lin : list opid) (pt : list nat) : Prop :=
+  length pt = length lin /\
+  (forall x id p, nth_error lin x = Some id -> nth_error pt x = Some p ->
+      exists i o, find_inv h id = Some (i, o) /\ i < p) /\
+  (forall x id p j r, nth_error lin x = Some id -> nth_error pt x = Some p ->
+      find_comp h id = Some (j, r) -> p <= j) /\
+  (forall x y p q, x < y -> nth_error pt x = Some p -> nth_error pt y = Some q -> p <= q).
+
 Definition linearizes (h : history) (lin : list opid) : Prop :=
   (* takes effect at most once *)
   NoDup lin /\
@@ -217,13 +228,7 @@ Definition linearizes (h : history) (lin : list opid) : Prop :=
   (forall id, In id lin -> refused h id = false) /\
   (* single effect points, after the invocation, before the Completed response,
      in the order of lin *)
-  (exists pt : list nat,
-      length pt = length lin /\
-      (forall x id p, nth_error lin x = Some id -> nth_error pt x = Some p ->
-          exists i o, find_inv h id = Some (i, o) /\ i < p) /\
-      (forall x id p j r, nth_error lin x = Some id -> nth_error pt x = Some p ->
-          find_comp h id = Some (j, r) -> p <= j) /\
-      (forall x y p q, x < y -> nth_error pt x = Some p -> nth_error pt y = Some q -> p <= q)) /\
+  (exists pt : list nat, pts_ok h lin pt) /\
   (* every completed operation returned what the sequential specification
      yields at its place *)
   (forall id j r, find_comp h id = Some (j, r) -> In (id, r) (lin_results h kv_init lin)).
@@ -317,3 +322,46 @@ Definition lin_unused_z : Z := 0%Z.
 
 (* final state of the specification after the writes of the log *)
 Definition log_state (h : history) (log : list opid) : kv := lin_state h kv_init log.
+
+(* ---- hypotheses of the composition theorem ---------------------------------
+   The protocol-level facts the linearizability argument composes, each named
+   after the property it comes from.  [log] is the agreed sequence of client
+   write entries (their operation ids, in index order), [obs rd] the number of
+   log entries the replica had applied when the Lookup of read rd ran, and
+   [cmt p] (ghost) the number of log entries committed in the shard when event p
+   of the history happened. *)
+
+(* C05 at_most_once / unique entry ids: an operation has at most one entry, and
+   every entry is the write of a client operation of the history *)
+Definition C05_at_most_once (h : history) (log : list opid) : Prop :=
+  NoDup log /\ forall w, In w log -> is_write h w = true.
+
+(* C02 state_machine_safety: there is one log; what is committed stays committed
+   (cmt only grows, within log); every replica computes its state and results by
+   applying a prefix of that log in order *)
+Definition C02_state_machine_safety (h : history) (log : list opid)
+           (obs : opid -> nat) (cmt : nat -> nat) : Prop :=
+  (forall p q, p <= q -> cmt p <= cmt q) /\
+  (forall p, cmt p <= length log) /\
+  (forall w j r, find_comp h w = Some (j, r) -> is_write h w = true ->
+      In (w, r) (lin_results h kv_init log)) /\
+  (forall rd j r k, find_comp h rd = Some (j, r) -> op_of h rd = Some (OpRead k) ->
+      r = kv_get (lin_state h kv_init (firstn (obs rd) log)) k).
+
+(* C03 leader_completeness: an entry created after index i was committed lands above i *)
+Definition C03_leader_completeness (h : history) (log : list opid) (cmt : nat -> nat) : Prop :=
+  forall w idx, nth_error log idx = Some w -> cmt (inv_pos h w) <= idx.
+
+(* C12 completed_after_local_apply: Completed is signalled only from the apply
+   path, after the entry was applied locally (hence committed); a refused
+   request was never handed to raft *)
+Definition C12_completed_after_local_apply (h : history) (log : list opid) (cmt : nat -> nat) : Prop :=
+  (forall w j r, find_comp h w = Some (j, r) -> is_write h w = true ->
+      exists idx, nth_error log idx = Some w /\ idx < cmt j) /\
+  (forall w, In w log -> refused h w = false).
+
+(* C06 read_index_not_stale: the read index is at least the commit index at the
+   time of the invocation; the Lookup ran on an applied (hence committed) prefix *)
+Definition C06_read_index_not_stale (h : history) (obs : opid -> nat) (cmt : nat -> nat) : Prop :=
+  forall rd j r, find_comp h rd = Some (j, r) -> is_read h rd = true ->
+      cmt (inv_pos h rd) <= obs rd /\ obs rd <= cmt j.
